@@ -627,6 +627,94 @@ def _roundtrip(out, case, kind, tr, y, w, fin, lost, warper, med):
 SHRINK = {'quick': 75, 'thorough': 240}
 
 
+
+# ---------------------------------------------------------------------------
+# the designers' own use of the warpers (gp_ucb_pe.py): one warper per metric,
+# predictions un-warped with the warper of *that* metric
+# ---------------------------------------------------------------------------
+def designer_strategy():
+  @st.composite
+  def case(draw):
+    n_metrics = draw(st.sampled_from([2, 2, 3]))
+    # metrics on well separated scales: un-warping metric i with the warper
+    # of metric j lands orders of magnitude outside metric i's values
+    offsets = draw(st.permutations([0.0, 1e4, 1e8]))[:n_metrics]
+    n = draw(st.integers(5, 8))
+    pts = draw(st.lists(st.tuples(
+        st.floats(0.05, 0.95, allow_nan=False),
+        st.floats(0.05, 0.95, allow_nan=False)).map(list),
+                        min_size=n, max_size=n, unique_by=lambda p: tuple(p)))
+    return {'offsets': list(offsets), 'points': pts,
+            'seed': draw(st.integers(0, 5))}
+  return case()
+
+
+def check_designer(case):
+  import jax
+  from vizier import pyvizier as vz
+  from vizier._src.algorithms.core import abstractions as vza
+  from vizier._src.algorithms.designers import gp_ucb_pe
+  from vizier._src.algorithms.optimizers import eagle_strategy as es
+  from vizier._src.algorithms.optimizers import vectorized_base as vb
+  out = core.Out()
+  ps = vz.ProblemStatement()
+  ps.search_space.root.add_float_param('x', 0.0, 1.0)
+  ps.search_space.root.add_float_param('y', 0.0, 1.0)
+  names = ['m%d' % i for i in range(len(case['offsets']))]
+  for nm in names:
+    ps.metric_information.append(vz.MetricInformation(
+        nm, goal=vz.ObjectiveMetricGoal.MAXIMIZE))
+  fns = [lambda x, y: x * y, lambda x, y: (x + y) / 2.0,
+         lambda x, y: 1.0 - abs(x - y)]
+  trials = []
+  values = {nm: [] for nm in names}
+  for i, (x, y) in enumerate(case['points']):
+    t = vz.Trial(id=i + 1, parameters={'x': x, 'y': y})
+    ms = {}
+    for k, nm in enumerate(names):
+      off = case['offsets'][k]
+      v = off + max(off, 1.0) * fns[k](x, y)
+      ms[nm] = v
+      values[nm].append(v)
+    t.complete(vz.Measurement(ms))
+    trials.append(t)
+  opt = vb.VectorizedOptimizerFactory(
+      strategy_factory=es.VectorizedEagleStrategyFactory(),
+      max_evaluations=200, suggestion_batch_size=25)
+  try:
+    d = gp_ucb_pe.VizierGPUCBPEBandit(
+        ps, acquisition_optimizer_factory=opt,
+        rng=jax.random.PRNGKey(case['seed']))
+    d.update(vza.CompletedTrials(trials), vza.ActiveTrials())
+    d.suggest(1)
+    pred = d.predict(trials, num_samples=100)
+  except Exception as e:  # pylint: disable=broad-except
+    out.cls('designer_raised:' + type(e).__name__)
+    out.inconclusive = True
+    return out
+  mean = np.asarray(pred.mean).reshape(len(trials), -1)
+  if mean.shape[1] != len(names):
+    out.violate('designer/predict_shape', 'mean shape %r for %d metrics' % (
+        mean.shape, len(names)))
+    return out
+  for k, nm in enumerate(names):
+    lo, hi = min(values[nm]), max(values[nm])
+    span = max(hi - lo, 1e-9 * max(abs(lo), abs(hi), 1.0))
+    col = mean[:, k]
+    if not np.all(np.isfinite(col)):
+      out.violate('designer/unwarped_prediction_nonfinite/gp_ucb_pe',
+                  'metric %s predictions %r' % (nm, col.tolist()))
+    elif np.any(col < lo - 50 * span) or np.any(col > hi + 50 * span):
+      out.violate('designer/unwarped_prediction_on_wrong_scale/gp_ucb_pe',
+                  'metric %s observed in [%g, %g] but predictions at the '
+                  'observed points are %r (offsets %r): un-warped with '
+                  'another metric\'s warper?' % (
+                      nm, lo, hi, col.tolist(), case['offsets']))
+  out.cls('designer_gp_ucb_pe', 'metrics_%d' % len(names))
+  out.nontrivial = True
+  return out
+
+
 def families(tier):
   return [
       core.Family('default', check, strategy=default_strategy,
@@ -659,4 +747,10 @@ def families(tier):
                       'nontrivial', 'has_dup', 'has_outlier', 'has_nan',
                       'has_neg_inf', 'all_infeasible', 'outlier_dropped',
                       'documented_valueerror', 'roundtrip_judged', 'reuse')),
+      core.Family('designer_unwarp', check_designer,
+                  strategy=designer_strategy,
+                  budget={'quick': 2, 'thorough': 16},
+                  shards={'quick': 2, 'thorough': 8},
+                  max_shrink_s={'quick': 0, 'thorough': 0},
+                  required_classes=('designer_gp_ucb_pe',)),
   ]
